@@ -256,3 +256,207 @@ if __name__ == "__main__":
     d = main(sys.argv[1] if len(sys.argv) > 1 else "/repo", sys.argv[2] if len(sys.argv) > 2 else "/verif/coq/Gen")
     for k, v in d.items():
         print("REFUSED", k, v)
+
+
+# ----------------------------------------------------------------------------------------------
+# GenEffects.v: call graph, direct effects, command roots (C18, C14)
+COMMANDS = {"recheck": "commands.recheck", "info": "commands.info", "magnet": "commands.get_magnet",
+            "create": "commands.create", "rename": "commands.rename", "rebuild": "commands.rebuild",
+            "edit": "commands.edit"}
+KINDS = ["Read", "Write", "Remove", "Rename", "Mkdir", "Copy", "Chmod"]
+
+
+def gen_effects(repo):
+    g = Graph(repo)
+    quals = sorted(g.fns)
+    idx = {q: i for i, q in enumerate(quals)}
+    lines = ["(* GENERATED by gen/gen_effects.py from torrentfile/*.py -- do not edit.",
+             "   Over-approximate call graph (gen/callgraph.py), direct filesystem effects per function and the",
+             "   command entry points.  Function numbers index fn_names. *)",
+             "From Coq Require Import List String. Import ListNotations.",
+             "From TF Require Import Model.Effects.", "Open Scope string_scope.", ""]
+    lines.append("Definition fn_names : list (nat * string) := [")
+    lines.append(";\n".join(f'  ({i}, "{q}")' for q, i in idx.items()))
+    lines.append("].\n")
+    lines.append("Definition call_graph : graph := [")
+    lines.append(";\n".join(f"  ({idx[q]}, [{'; '.join(str(idx[c]) for c in sorted(g.fns[q].calls) if c in idx)}])" for q in quals))
+    lines.append("].\n")
+    lines.append("Definition direct_effects : list (nat * list effect) := [")
+    rows = []
+    for q in quals:
+        effs = sorted({k for k, _ in g.fns[q].effects}, key=KINDS.index)
+        if g.fns[q].unknown:
+            effs.append("Unknown")
+        if effs:
+            rows.append(f"  ({idx[q]}, [{'; '.join('E' + e for e in effs)}])")
+    lines.append(";\n".join(rows))
+    lines.append("].\n")
+    # the dispatcher cli.execute runs before every command
+    pre = [idx[q] for q in ("cli.execute",) if q in idx]
+    for name, q in COMMANDS.items():
+        roots = ([idx[q]] if q in idx else []) + pre
+        lines.append(f"Definition cmd_{name} : list nat := [{'; '.join(map(str, roots))}].")
+    return "\n".join(lines) + "\n", g, idx
+
+
+def gen_create_ops(repo):
+    """ordered operations of utils.check_path_writable and commands.rename in the small vocabulary of Model/Effects.v"""
+    src = os.path.join(repo, "torrentfile", "utils.py")
+    tree = ast.parse(open(src, encoding="utf-8").read())
+    fn = next(n for n in tree.body if isinstance(n, ast.FunctionDef) and n.name == "check_path_writable")
+    pname = fn.args.args[0].arg
+    ops = []
+    binds = {}
+
+    def is_path(e):
+        return isinstance(e, ast.Name) and e.id == pname
+
+    def is_exists(e):
+        return (isinstance(e, ast.Call) and isinstance(e.func, ast.Attribute) and e.func.attr == "exists"
+                and len(e.args) == 1 and is_path(e.args[0]))
+
+    def is_remove(s):
+        return (isinstance(s, ast.Expr) and isinstance(s.value, ast.Call) and isinstance(s.value.func, ast.Attribute)
+                and s.value.func.attr in ("remove", "unlink") and isinstance(s.value.func.value, ast.Name)
+                and s.value.func.value.id == "os" and len(s.value.args) == 1 and is_path(s.value.args[0]))
+
+    def pure(node):
+        for c in ast.walk(node):
+            if isinstance(c, ast.Call):
+                f = c.func
+                ok = (isinstance(f, ast.Attribute) and f.attr in ("endswith", "join", "dirname", "startswith")) or \
+                     (isinstance(f, ast.Name) and f.id in ("str", "PermissionError", "len"))
+                if not ok:
+                    return False
+        return True
+
+    def walk(stmts):
+        for s in stmts:
+            if isinstance(s, ast.Expr) and isinstance(s.value, ast.Constant):
+                continue
+            if isinstance(s, ast.Try):
+                if s.finalbody or s.orelse:
+                    ops.append("PUnknown")
+                    continue
+                walk(s.body)
+                for h in s.handlers:
+                    # handlers may only re-raise
+                    if not all(isinstance(x, (ast.Assign, ast.Raise)) and pure(x) for x in h.body):
+                        ops.append("PUnknown")
+                continue
+            if isinstance(s, ast.Assign) and len(s.targets) == 1 and isinstance(s.targets[0], ast.Name):
+                if is_exists(s.value):
+                    binds[s.targets[0].id] = "existed"
+                    ops.append("PExistsBind")
+                    continue
+                if pure(s.value):
+                    continue          # rebinding of the probe path by pure string functions
+                ops.append("PUnknown")
+                continue
+            if isinstance(s, ast.If):
+                t = s.test
+                # if not existed: os.remove(path)
+                if (isinstance(t, ast.UnaryOp) and isinstance(t.op, ast.Not) and isinstance(t.operand, ast.Name)
+                        and binds.get(t.operand.id) == "existed" and not s.orelse and len(s.body) == 1 and is_remove(s.body[0])):
+                    ops.append("PRemoveIfNew")
+                    continue
+                if pure(t) and all(isinstance(x, ast.Assign) and pure(x) for x in s.body + s.orelse):
+                    continue
+                ops.append("PUnknown")
+                continue
+            if isinstance(s, ast.With):
+                c = s.items[0].context_expr if len(s.items) == 1 else None
+                if (c is not None and isinstance(c, ast.Call) and isinstance(c.func, ast.Name) and c.func.id == "open"
+                        and len(c.args) == 2 and not c.keywords and is_path(c.args[0])
+                        and isinstance(c.args[1], ast.Constant) and c.args[1].value in ("ab", "a")
+                        and all(isinstance(x, ast.Pass) for x in s.body)):
+                    ops.extend(["POpenAppend", "PClose"])
+                    continue
+                ops.append("PUnknown")
+                continue
+            if is_remove(s):
+                ops.append("PRemove")
+                continue
+            if isinstance(s, (ast.Return, ast.Raise, ast.Pass)) and pure(s):
+                continue
+            ops.append("PUnknown")
+    walk(fn.body)
+
+    # commands.rename
+    src = os.path.join(repo, "torrentfile", "commands.py")
+    tree = ast.parse(open(src, encoding="utf-8").read())
+    fn = next(n for n in tree.body if isinstance(n, ast.FunctionDef) and n.name == "rename")
+    rops = []
+    names = {}       # local -> "T" | "N"
+
+    def sym(e):
+        if isinstance(e, ast.Name):
+            return names.get(e.id)
+        return None
+    for s in fn.body:
+        if isinstance(s, ast.Expr) and isinstance(s.value, ast.Constant):
+            continue
+        if isinstance(s, ast.Assign) and len(s.targets) == 1 and isinstance(s.targets[0], ast.Name):
+            v = s.value
+            t = s.targets[0].id
+            if isinstance(v, ast.Attribute) and v.attr == "target":
+                names[t] = "T"
+                continue
+            if isinstance(v, ast.Call) and isinstance(v.func, ast.Attribute) and v.func.attr == "load" and len(v.args) == 1 and sym(v.args[0]) == "T":
+                rops.append("RLoadT")
+                continue
+            if isinstance(v, ast.Call) and isinstance(v.func, ast.Attribute) and v.func.attr == "join":
+                names[t] = "N"          # the new path: dirname(target) joined with the metafile's own name
+                continue
+            if isinstance(v, (ast.Subscript, ast.Call)) and all(
+                    not isinstance(c, ast.Call) or (isinstance(c.func, ast.Attribute) and c.func.attr in ("dirname", "basename"))
+                    for c in ast.walk(v)):
+                continue
+            rops.append("RUnknown")
+            continue
+        if isinstance(s, ast.If) and len(s.body) == 1 and isinstance(s.body[0], ast.Raise) and not s.orelse:
+            t = s.test
+            calls = [c for c in ast.walk(t) if isinstance(c, ast.Call)]
+            if len(calls) == 1 and isinstance(calls[0].func, ast.Attribute) and calls[0].func.attr == "exists" and len(calls[0].args) == 1:
+                which = sym(calls[0].args[0])
+                neg = any(isinstance(n, ast.Not) for n in ast.walk(t))
+                if which == "T" and neg:
+                    rops.append("RRaiseUnlessExistsT")
+                    continue
+                if which == "N" and not neg:
+                    rops.append("RRaiseIfExistsN")
+                    continue
+            rops.append("RUnknown")
+            continue
+        if isinstance(s, ast.Expr) and isinstance(s.value, ast.Call) and isinstance(s.value.func, ast.Attribute) \
+                and s.value.func.attr == "rename" and len(s.value.args) == 2 \
+                and sym(s.value.args[0]) == "T" and sym(s.value.args[1]) == "N":
+            rops.append("RRenameTN")
+            continue
+        if isinstance(s, ast.Return):
+            continue
+        rops.append("RUnknown")
+    return ops, rops
+
+
+def gen_effects_file(repo):
+    text, _, _ = gen_effects(repo)
+    pops, rops = gen_create_ops(repo)
+    text += "\nDefinition probe_ops : list probe_op := [" + "; ".join(pops) + "].\n"
+    text += "Definition rename_ops : list rename_op := [" + "; ".join(rops) + "].\n"
+    return text
+
+
+_old_main = main
+
+
+def main(repo, outdir):  # noqa: F811
+    diags = _old_main(repo, outdir)
+    try:
+        text = gen_effects_file(repo)
+    except Exception as e:  # noqa
+        diags["GenEffects.v"] = f"{type(e).__name__}: {e}"
+        text = (f"(* GENERATED: translator refused: {str(e).replace('*)', '* )')} *)\n"
+                "Definition translator_refused : unit := tt.\n")
+    write_if_changed(os.path.join(outdir, "GenEffects.v"), text)
+    return diags
